@@ -7607,6 +7607,11 @@ void UniCompiler::emit_4v(UniOpVVVV op, const Operand_& dst_, const Operand_& sr
             std::swap(src1, src2.as<Vec>());
         }
 
+        if (neg_mul && is_same_vec(dst, src2)) {
+          // `dst` is negated in place first, so `src2` must not alias it.
+          src2 = sse_copy(*this, src2.as<Vec>(), "@copy_src2");
+        }
+
         const FloatInst& fi = sse_float_inst[size_t(fm)];
         InstId fi_facc = mul_add ? fi.fadd : fi.fsub;
 
